@@ -66,6 +66,10 @@ def compare_run(wd, rd, rawpath, alpha, maxin, vhgen, v, pid, byid, replay, seen
             if seen[k] == 1:
                 v.violation("definition %s on input %r: generated %s, runtime %s" % (p[1], p[2], p[5], p[4]),
                             {"property": pid, "kind": "gencompare", "alpha": alpha, "case": byid[p[1]], "input": p[2], "runtime": p[4], "generated": p[5]})
+        elif p[0] == "INTERLEAVE":
+            if ("il", p[1]) not in seen:
+                seen[("il", p[1])] = 1
+                v.violation("definition %s: %s" % (p[1], p[3][:300]), {"property": pid, "kind": "interleave", "alpha": alpha, "case": byid[p[1]], "detail": p[3]})
         elif p[0] == "GENSYM":
             v.violation("symbol table of generated lexer %s differs: %s" % (p[1], " ".join(p[2:])), {"property": pid, "kind": "gensym", "case": byid[p[1]], "detail": line})
         elif p[0] == "GENBAD":
